@@ -383,6 +383,10 @@ class PrettyPrinter:
             # e.g. an empty dict created by reading a missing key of a DefaultOrderedDict
             raise ValueError(f"The property {attr} has an empty dictionary as a value")
 
+        if "allOf" in attr_props and len(attr_props["allOf"]) == 1:
+            # a single schema wrapped in allOf so that version metadata can be added next to it
+            attr_props = attr_props["allOf"][0]
+
         if any(i in ["enum"] for i in attr_props):
             if not isinstance(value, numbers.Number):
                 if attr == "compop":
